@@ -60,6 +60,11 @@ FAILING = [
     ("wrong-number-of-values", "too-many-for-column-list", "INSERT INTO T (K) VALUES (1, 'a')", None),
     ("undefined-variable", "select-list", "SELECT $NOT_DEFINED", "variable"),
     ("undefined-variable", "dml", "INSERT INTO T VALUES ($NOT_DEFINED, 'a')", "variable"),
+    # failing DDL that carries Snowflake-side metadata: nothing of it may be recorded
+    ("already-exists", "table-with-comment", "CREATE TABLE T (I INT) COMMENT = 'must not stick'", None),
+    ("already-exists", "table-with-lengths", "CREATE TABLE T (K INT, V VARCHAR(3))", None),
+    ("unknown-table", "ctas-source-with-comment", "CREATE TABLE X3 COMMENT = 'ghost' AS SELECT * FROM NOPE", None),
+    ("unknown-column", "ctas-with-comment", "CREATE TABLE X4 COMMENT = 'ghost' AS SELECT NO_SUCH_COL FROM T", None),
 ]
 NOCTX = [
     ("no-current-database", "select", "SELECT * FROM T", (90105, "22000")),
